@@ -6,6 +6,7 @@ import (
 	"context"
 	"errors"
 	"fmt"
+	"io"
 	"regexp"
 	"runtime"
 	"strings"
@@ -33,6 +34,7 @@ type c10Case struct {
 	Stall     bool   `json:"stall"`                // hold maintenance inside a gated removal listener so that the write queue fills up and writers park on it
 	CloseAt   int    `json:"close_at"`             // Close is called once this many writes have been issued (0 = right away)
 	PostWait  bool   `json:"post_wait"`            // call Wait after Close (plain/loading)
+	FailSave  int    `json:"fail_save,omitempty"`  // n > 0: while the writers run, SaveCache is called n times with a writer that fails after a few bytes (at different offsets)
 	LongStall bool   `json:"long_stall,omitempty"` // with Stall: maintenance stays held for 1.2 s after Close was called, so the 1 s maintenance tick fires while Close is queued on the policy lock
 }
 
@@ -56,10 +58,26 @@ func genC10(t *rapid.T) c10Case {
 	c.CloseAt = rapid.SampledFrom([]int{0, 1, total / 4, total / 2, total}).Draw(t, "closeAt")
 	c.PostWait = rapid.Bool().Draw(t, "postWait")
 	c.LongStall = c.Stall && rapid.IntRange(0, 7).Draw(t, "longStall") == 0
+	if !c.Stall && rapid.IntRange(0, 2).Draw(t, "failSave") == 0 {
+		c.FailSave = rapid.IntRange(1, 4).Draw(t, "failSaves")
+	}
 	return c
 }
 
 const c10SeededKey = 900001
+
+// c10FailingWriter accepts 'left' bytes and then fails every Write
+type c10FailingWriter struct{ left int }
+
+func (w *c10FailingWriter) Write(p []byte) (int, error) {
+	if len(p) <= w.left {
+		w.left -= len(p)
+		return len(p), nil
+	}
+	n := w.left
+	w.left = 0
+	return n, errors.New("scripted write failure")
+}
 
 type c10Client struct {
 	set    func(k, v int) bool
@@ -68,6 +86,7 @@ type c10Client struct {
 	del    func(k int)
 	close  func()
 	wait   func() // nil for hybrid kinds (no Wait in their API)
+	save   func(w io.Writer) error
 	length func() int
 }
 
@@ -94,6 +113,7 @@ func execC10(c c10Case, x *verifkit.Ctx) (fail *verifkit.Failure) {
 	release := func() { gateOnce.Do(func() { close(gate) }) }
 	defer release()
 	var stalled atomic.Bool
+	var savesFailed atomic.Int64
 	listener := func(k, v int, r theine.RemoveReason) {
 		if c.Stall && stalled.CompareAndSwap(false, true) {
 			<-gate // maintenance is held here, under the policy lock
@@ -110,14 +130,14 @@ func execC10(c c10Case, x *verifkit.Ctx) (fail *verifkit.Failure) {
 		if err != nil {
 			return verifkit.Failf("harness/build", "%v", err)
 		}
-		cl = c10Client{set: func(k, v int) bool { return cc.Set(k, v, 1) }, get: func(k int) bool { _, ok := cc.Get(k); return ok }, del: cc.Delete, close: cc.Close, wait: cc.Wait, length: cc.Len}
+		cl = c10Client{set: func(k, v int) bool { return cc.Set(k, v, 1) }, get: func(k int) bool { _, ok := cc.Get(k); return ok }, del: cc.Delete, close: cc.Close, wait: cc.Wait, length: cc.Len, save: func(w io.Writer) error { return cc.SaveCache(0, w) }}
 	case "loading":
 		cc, err := theine.NewBuilder[int, int](int64(c.MaxSize)).RemovalListener(listener).Loading(loader).Build()
 		if err != nil {
 			return verifkit.Failf("harness/build", "%v", err)
 		}
 		cl = c10Client{set: func(k, v int) bool { return cc.Set(k, v, 1) }, get: func(k int) bool { _, err := cc.Get(context.Background(), k); return err == nil },
-			lget: func(k int) error { _, err := cc.Get(context.Background(), k); return err }, del: cc.Delete, close: cc.Close, wait: cc.Wait, length: cc.Len}
+			lget: func(k int) error { _, err := cc.Get(context.Background(), k); return err }, del: cc.Delete, close: cc.Close, wait: cc.Wait, length: cc.Len, save: func(w io.Writer) error { return cc.SaveCache(0, w) }}
 	case "hybrid":
 		sec := internal.NewSimpleMapSecondary[int, int]()
 		_ = sec.Set(c10SeededKey, 1, 1, 0) // a key that lives only in the secondary tier
@@ -125,7 +145,7 @@ func execC10(c c10Case, x *verifkit.Ctx) (fail *verifkit.Failure) {
 		if err != nil {
 			return verifkit.Failf("harness/build", "%v", err)
 		}
-		cl = c10Client{set: func(k, v int) bool { return cc.Set(k, v, 1) }, get: func(k int) bool { _, ok, _ := cc.Get(k); return ok }, del: func(k int) { _ = cc.Delete(k) }, close: cc.Close}
+		cl = c10Client{set: func(k, v int) bool { return cc.Set(k, v, 1) }, get: func(k int) bool { _, ok, _ := cc.Get(k); return ok }, del: func(k int) { _ = cc.Delete(k) }, close: cc.Close, save: func(w io.Writer) error { return cc.SaveCache(0, w) }}
 	default:
 		sec := internal.NewSimpleMapSecondary[int, int]()
 		_ = sec.Set(c10SeededKey, 1, 1, 0)
@@ -134,7 +154,7 @@ func execC10(c c10Case, x *verifkit.Ctx) (fail *verifkit.Failure) {
 			return verifkit.Failf("harness/build", "%v", err)
 		}
 		cl = c10Client{set: func(k, v int) bool { return cc.Set(k, v, 1) }, get: func(k int) bool { _, err := cc.Get(context.Background(), k); return err == nil },
-			lget: func(k int) error { _, err := cc.Get(context.Background(), k); return err }, del: func(k int) { _ = cc.Delete(k) }, close: cc.Close}
+			lget: func(k int) error { _, err := cc.Get(context.Background(), k); return err }, del: func(k int) { _ = cc.Delete(k) }, close: cc.Close, save: func(w io.Writer) error { return cc.SaveCache(0, w) }}
 	}
 	if c.Stall && (c.Kind == "hybrid" || c.Kind == "hybridloading") {
 		// evictions are not reported to the listener in hybrid caches: stall through a Delete notification
@@ -186,6 +206,19 @@ func execC10(c c10Case, x *verifkit.Ctx) (fail *verifkit.Failure) {
 				}
 			}()
 		}
+	}
+	if c.FailSave > 0 && cl.save != nil && !c.Stall {
+		// SaveCache into a writer that fails: the call returns its error and must leave no lock behind
+		// (every later write, and Close, needs the locks SaveCache takes)
+		wg.Add(1)
+		go func() {
+			defer wg.Done()
+			for i := 0; i < c.FailSave; i++ {
+				_ = cl.save(&c10FailingWriter{left: []int{0, 40, 300, 3000}[i%4]})
+				savesFailed.Add(1)
+				runtime.Gosched()
+			}
+		}()
 	}
 	if c.CloseAt == 0 {
 		closeOnce.Do(func() { close(closeNow) })
@@ -301,6 +334,7 @@ func execC10(c c10Case, x *verifkit.Ctx) (fail *verifkit.Failure) {
 	over := int(parkedAtClose) > 0 && c.Writers*c.WOps > internal.WriteChanSize+internal.WriteBufferSize
 	x.ClassIf(over, "more-writes-in-flight-than-queue")
 	x.ClassIf(c.Stall, "maintenance-stalled-at-close")
+	x.ClassIf(savesFailed.Load() > 0, "savecache-into-a-failing-writer")
 	x.ClassIf(c.Stall && c.LongStall, "tick-fired-while-close-was-queued")
 	x.ClassIf(c.PostWait && cl.wait != nil, "wait-after-close")
 	if over || c.Kind == "hybrid" || c.Kind == "hybridloading" || (c.PostWait && cl.wait != nil) {
@@ -322,8 +356,9 @@ func TestVerifC10(t *testing.T) {
 			{Kind: "hybrid", MaxSize: 16, Writers: 2200, WOps: 1, Readers: 1, Stall: true, CloseAt: 2200},
 			{Kind: "hybridloading", MaxSize: 1000, Writers: 40, WOps: 100, Readers: 4, Stall: false, CloseAt: 1000},
 			{Kind: "plain", MaxSize: 16, Writers: 8, WOps: 50, Readers: 1, Stall: true, LongStall: true, CloseAt: 200, PostWait: true},
+			{Kind: "loading", MaxSize: 1000, Writers: 8, WOps: 200, Readers: 2, FailSave: 4, CloseAt: 1600},
 		},
-		Rule: "C10: rapid draws the cache kind (plain, loading, hybrid, hybrid loading - built through the public builders), MaxSize, 1..2500 writer goroutines (classes below and above the write queue's capacity), 0..8 readers, 0..4 goroutines calling Wait in a loop meanwhile, whether maintenance is held inside a gated removal listener when Close lands (so that the queue is full and writers are parked on it; in an eighth of those cases for 1.2 s more, so that the maintenance tick fires while Close is queued on the policy lock), the moment of Close, and the calls made after Close (Set, Delete, Get of stored keys and - hybrid kinds - of a key that lives only in the secondary tier, loading Get, second Close, Wait); non-trivial = more writes in flight than the queue holds at Close, or a hybrid cache, or Wait after Close",
+		Rule: "C10: rapid draws the cache kind (plain, loading, hybrid, hybrid loading - built through the public builders), MaxSize, 1..2500 writer goroutines (classes below and above the write queue's capacity), 0..8 readers, 0..4 goroutines calling Wait in a loop meanwhile, whether maintenance is held inside a gated removal listener when Close lands (so that the queue is full and writers are parked on it; in an eighth of those cases for 1.2 s more, so that the maintenance tick fires while Close is queued on the policy lock), the moment of Close, SaveCache calls into a writer that fails after 0..3000 bytes while the writers run (a third of the unstalled cases), and the calls made after Close (Set, Delete, Get of stored keys and - hybrid kinds - of a key that lives only in the secondary tier, loading Get, second Close, Wait); non-trivial = more writes in flight than the queue holds at Close, or a hybrid cache, or Wait after Close",
 		Assumptions: []string{
 			"a call that has not returned 5 s after Close returned, while it is parked in a channel send and no background goroutine of that cache exists any more, is reported as blocked for ever (stack classification); real scheduler, failures are not re-executed",
 			"background goroutines are recognised by the frames Store.maintenance / Store.processSecondary in the goroutine profile, counted relative to the start of the case",
